@@ -109,6 +109,7 @@ impl FixtureDatabase {
                         local_vars.insert(name, line);
                     }
                     self.collect_local_variables(&for_stmt.body, line_index, local_vars);
+                    self.collect_local_variables(&for_stmt.orelse, line_index, local_vars);
                 }
                 Stmt::AsyncFor(for_stmt) => {
                     let line =
@@ -119,9 +120,11 @@ impl FixtureDatabase {
                         local_vars.insert(name, line);
                     }
                     self.collect_local_variables(&for_stmt.body, line_index, local_vars);
+                    self.collect_local_variables(&for_stmt.orelse, line_index, local_vars);
                 }
                 Stmt::While(while_stmt) => {
                     self.collect_local_variables(&while_stmt.body, line_index, local_vars);
+                    self.collect_local_variables(&while_stmt.orelse, line_index, local_vars);
                 }
                 Stmt::If(if_stmt) => {
                     self.collect_local_variables(&if_stmt.body, line_index, local_vars);
@@ -157,8 +160,26 @@ impl FixtureDatabase {
                 }
                 Stmt::Try(try_stmt) => {
                     self.collect_local_variables(&try_stmt.body, line_index, local_vars);
+                    for handler in &try_stmt.handlers {
+                        let rustpython_parser::ast::ExceptHandler::ExceptHandler(h) = handler;
+                        self.collect_local_variables(&h.body, line_index, local_vars);
+                    }
                     self.collect_local_variables(&try_stmt.orelse, line_index, local_vars);
                     self.collect_local_variables(&try_stmt.finalbody, line_index, local_vars);
+                }
+                Stmt::TryStar(try_stmt) => {
+                    self.collect_local_variables(&try_stmt.body, line_index, local_vars);
+                    for handler in &try_stmt.handlers {
+                        let rustpython_parser::ast::ExceptHandler::ExceptHandler(h) = handler;
+                        self.collect_local_variables(&h.body, line_index, local_vars);
+                    }
+                    self.collect_local_variables(&try_stmt.orelse, line_index, local_vars);
+                    self.collect_local_variables(&try_stmt.finalbody, line_index, local_vars);
+                }
+                Stmt::Match(match_stmt) => {
+                    for case in &match_stmt.cases {
+                        self.collect_local_variables(&case.body, line_index, local_vars);
+                    }
                 }
                 _ => {}
             }
@@ -196,10 +217,16 @@ impl FixtureDatabase {
                 for stmt in &while_stmt.body {
                     self.visit_stmt_for_names(stmt, ctx);
                 }
+                for stmt in &while_stmt.orelse {
+                    self.visit_stmt_for_names(stmt, ctx);
+                }
             }
             Stmt::For(for_stmt) => {
                 self.visit_expr_for_names(&for_stmt.iter, ctx);
                 for stmt in &for_stmt.body {
+                    self.visit_stmt_for_names(stmt, ctx);
+                }
+                for stmt in &for_stmt.orelse {
                     self.visit_stmt_for_names(stmt, ctx);
                 }
             }
@@ -216,6 +243,9 @@ impl FixtureDatabase {
                 for stmt in &for_stmt.body {
                     self.visit_stmt_for_names(stmt, ctx);
                 }
+                for stmt in &for_stmt.orelse {
+                    self.visit_stmt_for_names(stmt, ctx);
+                }
             }
             Stmt::AsyncWith(with_stmt) => {
                 for item in &with_stmt.items {
@@ -229,6 +259,48 @@ impl FixtureDatabase {
                 self.visit_expr_for_names(&assert_stmt.test, ctx);
                 if let Some(ref msg) = assert_stmt.msg {
                     self.visit_expr_for_names(msg, ctx);
+                }
+            }
+            Stmt::Try(try_stmt) => {
+                for stmt in &try_stmt.body {
+                    self.visit_stmt_for_names(stmt, ctx);
+                }
+                for handler in &try_stmt.handlers {
+                    let rustpython_parser::ast::ExceptHandler::ExceptHandler(h) = handler;
+                    for stmt in &h.body {
+                        self.visit_stmt_for_names(stmt, ctx);
+                    }
+                }
+                for stmt in &try_stmt.orelse {
+                    self.visit_stmt_for_names(stmt, ctx);
+                }
+                for stmt in &try_stmt.finalbody {
+                    self.visit_stmt_for_names(stmt, ctx);
+                }
+            }
+            Stmt::TryStar(try_stmt) => {
+                for stmt in &try_stmt.body {
+                    self.visit_stmt_for_names(stmt, ctx);
+                }
+                for handler in &try_stmt.handlers {
+                    let rustpython_parser::ast::ExceptHandler::ExceptHandler(h) = handler;
+                    for stmt in &h.body {
+                        self.visit_stmt_for_names(stmt, ctx);
+                    }
+                }
+                for stmt in &try_stmt.orelse {
+                    self.visit_stmt_for_names(stmt, ctx);
+                }
+                for stmt in &try_stmt.finalbody {
+                    self.visit_stmt_for_names(stmt, ctx);
+                }
+            }
+            Stmt::Match(match_stmt) => {
+                self.visit_expr_for_names(&match_stmt.subject, ctx);
+                for case in &match_stmt.cases {
+                    for stmt in &case.body {
+                        self.visit_stmt_for_names(stmt, ctx);
+                    }
                 }
             }
             _ => {}
